@@ -48,6 +48,36 @@ MUTATIONS += [
     ("singleton-second-instance", "shape.py", "        if cls.__instance is None:\n            cls.__instance = super(SingletonShape, cls).__new__(cls)\n        return cls.__instance", "        cls.__instance = super(SingletonShape, cls).__new__(cls)\n        return cls.__instance", {"C06": 1}, ["singletons"]),
 ]
 
+MUTATIONS += [
+    ("contains-point-wind-eq1", "shape.py", "            return wind > 0 if boundary else wind == 1", "            return wind == 1 if boundary else wind == 1", {"C02": 1}, ["C02.table"]),
+    ("contains-point-orientation-flipped", "shape.py", "        if float(jordan) > 0:\n            return wind > 0 if boundary else wind == 1", "        if float(jordan) < 0:\n            return wind > 0 if boundary else wind == 1", {"C02": 1}, ["C02.table"]),
+    ("connected-any-for-all", "shape.py", "        for subshape in self.subshapes:\n            if not subshape.contains_point(point, boundary):\n                return False\n        return True", "        for subshape in self.subshapes:\n            if subshape.contains_point(point, boundary):\n                return True\n        return False", {"C02": 1}, ["compose[Connected._contains_point"]),
+    ("disjoint-drops-boundary-flag", "shape.py", "        for subshape in self.subshapes:\n            if subshape.contains_point(point, boundary):\n                return True\n        return False", "        for subshape in self.subshapes:\n            if subshape.contains_point(point):\n                return True\n        return False", {"C02": 1}, ["compose[Disjoint._contains_point"]),
+    ("winding-half-sign", "jordancurve.py", "                    return 0.5 if float(jordan) > 0 else -0.5", "                    return 0.5 if float(jordan) < 0 else -0.5", {"C02": 1}, ["winding-structure"]),
+    ("box-margin-sign", "polygon.py", "        if point[0] < self.lowpt[0] - self.dx:", "        if point[0] < self.lowpt[0] + self.dx:", {"C02": 1}, ["L0.box", "hull"]),
+    ("table-flipped-first-test", "shape.py", "        if areaA < 0 and areaB > 0:\n            return False", "        if areaA > 0 and areaB < 0:\n            return False", {"C03": 1}, ["C03.table"]),
+    ("table-dropped-conjunct", "shape.py", "            return jordana in self and jordanb not in other", "            return jordana in self", {"C03": 1}, ["C03.table"]),
+    ("table-area-comparison", "shape.py", "        if areaA > areaB or jordana not in self:", "        if areaA < areaB or jordana not in self:", {"C03": 1}, ["C03.table"]),
+    ("contains-shape-missing-restore", "shape.py", "                    finally:\n                        subshape.invert()", "                    finally:\n                        pass", {"C03": 1, "C11": 1}, ["connected-in-simple", "contains-shape"]),
+    ("disjoint-contains-all-for-any", "shape.py", "            for subshape in self.subshapes:\n                if other in subshape:\n                    return True\n            return False", "            for subshape in self.subshapes:\n                if other not in subshape:\n                    return False\n            return True", {"C03": 1}, ["compose[Disjoint._contains_shape"]),
+    ("whole-contained-in-defined", "shape.py", "        if isinstance(other, WholeShape):\n            return False\n        return self._contains_shape(other)", "        if isinstance(other, WholeShape):\n            return True\n        return self._contains_shape(other)", {"C03": 1}, ["C03.dispatch", "singletons"]),
+    ("connected-sort-not-reversed", "shape.py", "        values = sorted(zip(areas, values), key=algori, reverse=True)\n        values = tuple(val[1] for val in values)", "        values = sorted(zip(areas, values), key=algori)\n        values = tuple(val[1] for val in values)", {"C19": 1}, ["C19.setter"]),
+    ("disjoint-keeps-empty-entries", "shape.py", "        while EmptyShape() in subshapes:\n            subshapes.remove(EmptyShape())", "        pass", {"C19": 1}, ["C19.new"]),
+    ("shape-move-skips-holes", "shape.py", "        point = Point2D(*point)\n        for jordan in self.jordans:\n            jordan.move(point)", "        point = Point2D(*point)\n        for jordan in self.jordans[:1]:\n            jordan.move(point)", {"C09": 1}, ["rc-histories"]),
+    ("plot-curve3-count", "plot.py", "        commands += [Path.CURVE3] * 2", "        commands += [Path.CURVE3] * 3", {"C20": 1}, ["C20.path"]),
+    ("plot-fill-condition-inverted", "plot.py", "            if float(connected) > 0:", "            if float(connected) < 0:", {"C20": 1}, ["plot-shape"]),
+    ("square-half-side-dropped", "primitive.py", "        side /= 2\n", "        side /= 1\n", {"C16": 1}, ["C16.square"]),
+    ("circle-validation-weakened", "primitive.py", "            assert ndivangle >= 4", "            assert ndivangle >= 3", {"C16": 1}, ["C16.invalid"]),
+    ("simple-adopts-curve-without-copy", "shape.py", "        self.__jordancurve = copy(other)", "        self.__jordancurve = other", {"C08": 1}, ["C16.polygon", "C19.new", "rc-grid"]),
+    ("empty-or-without-copy", "shape.py", "    def __or__(self, other: BaseShape) -> BaseShape:\n        return copy(other)\n\n    def __and__(self, other: BaseShape) -> BaseShape:\n        return self", "    def __or__(self, other: BaseShape) -> BaseShape:\n        return other\n\n    def __and__(self, other: BaseShape) -> BaseShape:\n        return self", {"C08": 1}, ["dispatch[or,Empty", "singletons"]),
+    ("split-unsorted-nodes", "jordancurve.py", "        nodes = tuple(sorted(nodes))\n        segment = self.segments[index]", "        nodes = tuple(nodes)\n        segment = self.segments[index]", {"C15": 1}, ["jordan-split"]),
+    ("split-filter-removed", "jordancurve.py", "            if abs(node) < 1e-6 or abs(node - 1) < 1e-6:", "            if False:", {"C15": 1}, ["split-filter"]),
+    ("memo-entry-mutable", "curve.py", "            matrix = tuple(tuple(line) for line in matrix)\n            Math.__caract_matrix[degree] = matrix", "            matrix = [list(line) for line in matrix]\n            Math.__caract_matrix[degree] = matrix", {"C10": 1}, ["memo"]),
+    ("validate-after-first-mutation", "jordancurve.py", "        float(xscale)\n        float(yscale)\n        for vertex in self.vertices:\n            vertex.scale(xscale, yscale)", "        float(xscale)\n        for vertex in self.vertices:\n            vertex._x *= xscale\n        float(yscale)\n        for vertex in self.vertices:\n            vertex._y *= yscale", {"C11": 1}, ["validate"]),
+    ("winding-about-origin", "jordancurve.py", "            wind += IntegratePlanar.winding_number(bezier, center, nnodes)", "            wind += IntegratePlanar.winding_number(bezier, (0.0, 0.0), nnodes)", {"C12": 1, "C02": 1}, ["winding-structure"]),
+    ("point-eq-relative", "polygon.py", "        if abs(self[0] - other[0]) > 1e-9:\n            return False", "        if abs(self[0] - other[0]) > 1e-6:\n            return False", {"C07": 1}, ["L0.point-eq"]),
+]
+
 HARMLESS = [
     ("rename-local", "curve.py", "        denom = vector0.cross(vector1)\n        if denom != 0:  # Lines are not parallel\n            param0 = diff0.cross(vector1) / denom\n            param1 = diff0.cross(vector0) / denom",
      "        den = vector0.cross(vector1)\n        denom = den\n        if den != 0:  # Lines are not parallel\n            param0 = diff0.cross(vector1) / den\n            param1 = diff0.cross(vector0) / den", {"C14": 0}, ["lines"]),
